@@ -656,6 +656,9 @@ class SMCSamples(BaseSamples):
             n_samples = len(self.x)
         log_w = self.log_weights(beta)
         w = to_numpy(self.xp.exp(log_w - logsumexp(log_w)))
+        # Remove round-off in the normalisation (significant in float32)
+        w = w.astype(np.float64)
+        w = w / w.sum()
         idx = rng.choice(len(self.x), size=n_samples, replace=True, p=w)
         return self.__class__(
             x=self.x[idx],
